@@ -1,3 +1,222 @@
-import HioModel.Memo.Model
+import HioModel.Memo.RendLemmas
+import HioModel.Memo.AsmLemmas
+/-!
+# C20 — memos survive segmentation into grams and any delivery order
+
+Property theorems only.  Model: `HioModel/Memo/Model.lean` (`rendPlan`/`assemble`/`rend` = `Memoer.rend`, `pick`, `store` = the
+idempotent first-only storage of `_serviceOneReceived`, `fuse`, `fuseAll` = `_serviceOnceRxGrams`) of the tree at branch fix/memo
+(pre-finding F31 — gram count 0 / negative with Base2 headers — repaired).  Size / code tables regenerated on every run.
+
+Full statement: for any non-empty memo, any legal gram size, both header encodings, signed or unsigned grams and any delivery
+order / duplication / interleaving / batching, the receiver delivers the memo exactly once with the same text, source and
+signer id, and never when a gram is missing.
+
+What is proved here (all unbounded):
+* sender (`rend_fuse`): for every configuration in which `rend` succeeds the bodies of the grams, in gram-number order, concatenate
+  to the memo, none is empty, their number is the number of grams and is what the count field encodes, and each gram is
+  header ++ body (++ signature);
+* receiver (`reassembly_*`, `never_incomplete`, `delivered_content`, `exactly_once_unless_replayed`): over sequences of grams that
+  `pick` ACCEPTED (parsed grams), for one memo among ARBITRARY other traffic with other memo ids.
+The two are joined, and the byte-level parse of a genuine gram is covered, by the differential end-to-end run (harness/props/C20.py).
+
+Known findings, stated as they are in the theorems' guards:
+* K3 (F33): "exactly once" holds unless a complete set of the memo's grams arrives again after delivery
+  (`exactly_once_unless_replayed`; `redelivered_on_full_replay` is the witness).
+* K2 (F32): a signed non-zeroth gram is accepted by `pick` only when the zeroth gram is held (its vid is looked up in the state), so
+  for signed codes the accepted-gram sequences of this file are those in which the zeroth gram came first (or the gram was repeated later).
+* K1: with Base2 headers and an unsigned code `rend` refuses sizes below 33 (`rendPlan` returns MemoerError / ZeroDivisionError).
+-/
 namespace Hio.Memo
+
+/-- C20 sender side: whenever `rend` produces grams for a non-empty memo, with `bs` the bodies it cut:
+`bs` concatenates to the memo; no body is empty; there are exactly `|bs|` grams and the count field of the zeroth gram encodes `|bs|`;
+gram 0 is zeroth-header ++ body 0 (++ signature) and gram `i ≥ 1` is later-header with number `i` ++ body `i` (++ signature). -/
+theorem rend_fuse (cfg : TxCfg) (sign : Bytes → Bytes → Except Exn Bytes) (memo : Bytes) (vid : Option Bytes) (mid : Bytes) (grams : List Bytes)
+    (hne : memo ≠ []) (h : rend cfg sign memo vid mid = .ok grams) :
+    ∃ pl, rendPlan cfg memo.length vid mid = .ok pl ∧
+      (bodies pl.zbz pl.nbz memo).flatten = memo ∧
+      (∀ b ∈ bodies pl.zbz pl.nbz memo, b ≠ [] ∧ b.length ≤ max pl.zbz pl.nbz) ∧
+      grams.length = (bodies pl.zbz pl.nbz memo).length ∧
+      numField cfg.curt grams.length pl.nz = .ok pl.gcnt ∧
+      (∀ (h0 : 0 < (bodies pl.zbz pl.nbz memo).length) (h1 : 0 < grams.length),
+        mkGram sign pl.zcodeb pl.gcnt pl.midb pl.vidb pl.zWithVid pl.zSigned pl.vidt (bodies pl.zbz pl.nbz memo)[0] = .ok grams[0]) ∧
+      (∀ i (hi : i + 1 < (bodies pl.zbz pl.nbz memo).length) (hj : i + 1 < grams.length), ∃ num, numField cfg.curt (i + 1) pl.nz = .ok num ∧
+        mkGram sign pl.ncodeb num pl.midb pl.vidb pl.nWithVid pl.nSigned pl.vidt (bodies pl.zbz pl.nbz memo)[i + 1] = .ok grams[i + 1]) := by
+  unfold rend at h
+  split at h
+  · simp at h
+  · rename_i pl hpl
+    obtain ⟨hz, hn, hcnt, _⟩ := rendPlan_ok cfg memo.length vid mid pl hpl
+    have hflat := bodies_flatten pl.zbz pl.nbz memo hn
+    have hlen := bodies_length pl.zbz pl.nbz memo hne hn
+    have hb := bodies_bound pl.zbz pl.nbz memo hz hn
+    refine ⟨pl, hpl, hflat, hb, ?_⟩
+    unfold assemble at h
+    split at h
+    · rename_i hnil
+      rw [hnil] at hlen
+      have : 1 ≤ gramCount memo.length pl.zbz pl.nbz := by
+        unfold gramCount; split
+        · exact Nat.le_refl 1
+        · exact Nat.le_add_right 1 _
+      simp at hlen; omega
+    · rename_i b0 bs hbs
+      split at h
+      · simp at h
+      · rename_i g0 hg0
+        split at h
+        · simp at h
+        · rename_i gs hgs
+          cases h
+          obtain ⟨hl, hspec⟩ := mkGrams_spec _ _ _ _ _ _ _ _ _ _ _ _ hgs
+          rw [hbs] at hlen ⊢
+          have hlen2 : (g0 :: gs).length = (b0 :: bs).length := by simp [hl]
+          refine ⟨hlen2, ?_, ?_, ?_⟩
+          · rw [hlen2, hlen]; exact hcnt
+          · intro _ _; simpa using hg0
+          · intro i hi hj
+            obtain ⟨num, hnum, hg⟩ := hspec i (by simpa using hi) (by simpa using hj)
+            refine ⟨num, ?_, by simpa using hg⟩
+            rw [Nat.add_comm]; exact hnum
+
+/-- the fuse pass treats every memo id independently (this is what lets one memo be followed through arbitrary other traffic):
+`_serviceOnceRxGrams` keeps exactly the entries that `stays` and queues exactly `deliv` of each entry, in order -/
+theorem fuse_pass_per_entry (es : List Entry) : fuseAll es = .ok (es.filter stays, es.filterMap deliv) :=
+  fuseAll_char es
+
+/-- C20 receiver side, one service batch: a receiver that holds nothing for the memo's id receives ANY sequence of accepted grams in
+which every gram bearing that id is a genuine gram of the memo (any order, any duplicates, interleaved with arbitrary grams of other ids).
+At the end of the batch the memo is delivered — text = the bodies concatenated, its source, its signer id — if and only if every gram number
+occurs in the sequence; it is delivered by its single entry (memo ids stay unique), which is then removed; otherwise nothing is delivered for
+it and the entry is kept. -/
+theorem reassembly_one_batch (S : SMemo) (hn : 1 ≤ S.bodies.length) (hu : utf8Valid S.bodies.flatten = true)
+    (es : List Entry) (hnd : MidsNodup es) (hno : findEntry S.mid es = none) (seq : List (PG × Nat)) (hg : Genuine S seq) :
+    MidsNodup (storeAll seq es) ∧
+    ((∀ i, i < S.bodies.length → i ∈ idx S seq) →
+        (findEntry S.mid (storeAll seq es)).bind deliv = some ⟨S.bodies.flatten, S.src, S.vid⟩ ∧
+        findEntry S.mid ((storeAll seq es).filter stays) = none) ∧
+    (¬ (∀ i, i < S.bodies.length → i ∈ idx S seq) → (findEntry S.mid (storeAll seq es)).bind deliv = none) := by
+  have hb := batch_step S hn hu seq es hnd (noEntry_SInv S es hno) hg
+  simp only at hb
+  obtain ⟨_, _, hcase⟩ := hb
+  refine ⟨storeAll_nodup seq es hnd, ?_, ?_⟩
+  · intro hall
+    rcases hcase with ⟨_, _, hnot⟩ | ⟨ho, hf, _⟩
+    · exact absurd (fun i hi => Or.inr (hall i hi)) hnot
+    · exact ⟨ho, hf⟩
+  · intro hnall
+    rcases hcase with ⟨ho, _, _⟩ | ⟨_, _, hall⟩
+    · exact ho
+    · exfalso; apply hnall
+      intro i hi
+      rcases hall i hi with h | h
+      · exact absurd h (noEntry_noKey S es hno i)
+      · exact h
+
+/-- any history of batches: whatever the memo's entry ever delivers is the memo itself — same text, source and signer id -/
+theorem delivered_content (S : SMemo) (hn : 1 ≤ S.bodies.length) (hu : utf8Valid S.bodies.flatten = true)
+    (bs : List (List (PG × Nat))) (es : List Entry) (hnd : MidsNodup es) (hinv : SInv S es) (hg : ∀ b ∈ bs, Genuine S b) :
+    ∀ o ∈ runS S bs es, o = none ∨ o = some ⟨S.bodies.flatten, S.src, S.vid⟩ := by
+  induction bs generalizing es with
+  | nil => intro o ho; simp [runS] at ho
+  | cons b bs ih =>
+    have hb := batch_step S hn hu b es hnd hinv (hg b (List.mem_cons_self))
+    simp only at hb
+    obtain ⟨h1, h2, hcase⟩ := hb
+    intro o ho
+    simp only [runS, List.mem_cons] at ho
+    rcases ho with rfl | ho
+    · rcases hcase with ⟨h, _⟩ | ⟨h, _⟩
+      · left; exact h
+      · right; exact h
+    · exact ih _ h1 h2 (fun b' hb' => hg b' (List.mem_cons_of_mem _ hb')) o ho
+
+/-- a memo missing any gram is never delivered: if some gram number `j` is not held and never arrives in any batch, the memo's entry
+delivers nothing, in any batch, whatever else arrives in whatever order -/
+theorem never_incomplete (S : SMemo) (hn : 1 ≤ S.bodies.length) (hu : utf8Valid S.bodies.flatten = true)
+    (bs : List (List (PG × Nat))) (es : List Entry) (hnd : MidsNodup es) (hinv : SInv S es) (hg : ∀ b ∈ bs, Genuine S b)
+    (j : Nat) (hj : j < S.bodies.length) (hk : ¬ keyOf S es j) (hnever : ∀ b ∈ bs, j ∉ idx S b) :
+    ∀ o ∈ runS S bs es, o = none := by
+  induction bs generalizing es with
+  | nil => intro o ho; simp [runS] at ho
+  | cons b bs ih =>
+    have hb := batch_step S hn hu b es hnd hinv (hg b (List.mem_cons_self))
+    simp only at hb
+    obtain ⟨h1, h2, hcase⟩ := hb
+    have hjb : j ∉ idx S b := hnever b (List.mem_cons_self)
+    intro o ho
+    simp only [runS, List.mem_cons] at ho
+    rcases hcase with ⟨hnone, hkeys, _⟩ | ⟨_, _, hall⟩
+    · rcases ho with rfl | ho
+      · exact hnone
+      · refine ih _ h1 h2 (fun b' hb' => hg b' (List.mem_cons_of_mem _ hb')) ?_ (fun b' hb' => hnever b' (List.mem_cons_of_mem _ hb')) o ho
+        intro hkj
+        rcases (hkeys j).mp hkj with h | h
+        · exact hk h
+        · exact hjb h
+    · exfalso
+      rcases hall j hj with h | h
+      · exact hk h
+      · exact hjb h
+
+/-- … and it IS delivered at the end of the batch by which every gram number has arrived (held from earlier batches or in this one) -/
+theorem delivered_when_complete (S : SMemo) (hn : 1 ≤ S.bodies.length) (hu : utf8Valid S.bodies.flatten = true)
+    (b : List (PG × Nat)) (bs : List (List (PG × Nat))) (es : List Entry) (hnd : MidsNodup es) (hinv : SInv S es) (hg : Genuine S b)
+    (hall : ∀ i, i < S.bodies.length → keyOf S es i ∨ i ∈ idx S b) :
+    (runS S (b :: bs) es).head? = some (some ⟨S.bodies.flatten, S.src, S.vid⟩) := by
+  have hb := batch_step S hn hu b es hnd hinv hg
+  simp only at hb
+  obtain ⟨_, _, hcase⟩ := hb
+  rcases hcase with ⟨_, _, hnot⟩ | ⟨ho, _, _⟩
+  · exact absurd hall hnot
+  · simp [runS, ho]
+
+/-- grams held across batches accumulate while nothing is delivered (so `delivered_when_complete` chains over a history) -/
+theorem keys_accumulate (S : SMemo) (hn : 1 ≤ S.bodies.length) (hu : utf8Valid S.bodies.flatten = true)
+    (b : List (PG × Nat)) (es : List Entry) (hnd : MidsNodup es) (hinv : SInv S es) (hg : Genuine S b)
+    (hnone : (findEntry S.mid (storeAll b es)).bind deliv = none) :
+    ∀ j, keyOf S ((storeAll b es).filter stays) j ↔ keyOf S es j ∨ j ∈ idx S b := by
+  have hb := batch_step S hn hu b es hnd hinv hg
+  simp only at hb
+  obtain ⟨_, _, hcase⟩ := hb
+  rcases hcase with ⟨_, hkeys, _⟩ | ⟨ho, _, _⟩
+  · exact hkeys
+  · rw [ho] at hnone; cases hnone
+
+/-- EXACTLY ONCE, under the guard of known finding K3 (F33): the memo completes in the first batch and afterwards at least one of its
+gram numbers never arrives again (i.e. no complete set is replayed) — then it is delivered in that batch and never again -/
+theorem exactly_once_unless_replayed (S : SMemo) (hn : 1 ≤ S.bodies.length) (hu : utf8Valid S.bodies.flatten = true)
+    (b : List (PG × Nat)) (bs : List (List (PG × Nat))) (es : List Entry) (hnd : MidsNodup es) (hno : findEntry S.mid es = none)
+    (hg : Genuine S b) (hgs : ∀ b' ∈ bs, Genuine S b') (hall : ∀ i, i < S.bodies.length → i ∈ idx S b)
+    (j : Nat) (hj : j < S.bodies.length) (hnever : ∀ b' ∈ bs, j ∉ idx S b') :
+    ∃ rest, runS S (b :: bs) es = some ⟨S.bodies.flatten, S.src, S.vid⟩ :: rest ∧ ∀ o ∈ rest, o = none := by
+  have hb := batch_step S hn hu b es hnd (noEntry_SInv S es hno) hg
+  simp only at hb
+  obtain ⟨h1, h2, hcase⟩ := hb
+  rcases hcase with ⟨_, _, hnot⟩ | ⟨ho, hf, _⟩
+  · exact absurd (fun i hi => Or.inr (hall i hi)) hnot
+  · refine ⟨runS S bs ((storeAll b es).filter stays), by simp [runS, ho], ?_⟩
+    exact never_incomplete S hn hu bs _ h1 h2 hgs j hj (noEntry_noKey S _ hf j) hnever
+
+/-- witness for K3 (F33), a concrete test: the same complete set in a second batch is delivered a second time -/
+theorem redelivered_on_full_replay :
+    runS ⟨[1], [[104], [105]], 7, none⟩
+      [[(⟨[1], none, 0, some 2, [104]⟩, 7), (⟨[1], none, 1, none, [105]⟩, 7)], [(⟨[1], none, 1, none, [105]⟩, 7), (⟨[1], none, 0, some 2, [104]⟩, 7)]] []
+      = [some ⟨[104, 105], 7, none⟩, some ⟨[104, 105], 7, none⟩] := by decide
+
+/-! ### non-vacuity / concrete tests (bounded checks, not the unbounded claims) -/
+
+example : Genuine ⟨[1], [[104], [105]], 7, none⟩ [(⟨[1], none, 1, none, [105]⟩, 7), (⟨[9], none, 5, none, [0]⟩, 3), (⟨[1], none, 0, some 2, [104]⟩, 7)] := by
+  intro x hx hm
+  simp only [List.mem_cons, List.mem_nil_iff, or_false] at hx
+  rcases hx with rfl | rfl | rfl
+  · exact ⟨1, by decide, rfl⟩
+  · exact absurd hm (by decide)
+  · exact ⟨0, by decide, rfl⟩
+example : utf8Valid ([[104], [105]] : List Bytes).flatten = true := by decide
+/-- test: bodies of a 10 byte memo with zeroth body size 4 and later body size 3 -/
+example : bodies 4 3 [0, 1, 2, 3, 4, 5, 6, 7, 8, 9] = [[0, 1, 2, 3], [4, 5, 6], [7, 8, 9]] ∧ gramCount 10 4 3 = 3 := by decide
+/-- test (F31 repaired): a memo shorter than the difference of the two body sizes still counts one gram -/
+example : gramCount 3 14 6 = 1 ∧ bodies 14 6 [1, 2, 3] = [[1, 2, 3]] := by decide
+
 end Hio.Memo
